@@ -385,7 +385,50 @@ def gen_thread(status):
     return write_if_changed(os.path.join(GEN_DIR, 'Thread.lean'), body)
 
 
-GENERATORS = [gen_pess, gen_opt, gen_mcs, gen_thread]
+def gen_zipf(status):
+    hdr = read(f'{REPO}/include/dbgroup/random/zipf.hpp')
+    src = read(f'{REPO}/src/random/zipf.cpp')
+    vals = compile_consts('zipf', [f'{REPO}/include/dbgroup/random/zipf.hpp'], ['kExactBinNum'],
+                          prefix='::dbgroup::random::ApproxZipfDistribution<uint64_t>::')
+    if isinstance(vals, str):
+        # kExactBinNum is private: read it textually
+        m = re.search(r'kExactBinNum\s*=\s*(\d+)', cxxscan.strip_comments(hdr))
+        if m:
+            vals = {'kExactBinNum': int(m.group(1))}
+        else:
+            status['errors'].append('zipf constants: ' + vals)
+            vals = {'kExactBinNum': 100}
+    m = re.search(r'constexpr\s+size_t\s+kSkipSize\s*=\s*(\d+)', cxxscan.strip_comments(src))
+    if m:
+        vals['kSkipSize'] = int(m.group(1))
+    else:
+        status['errors'].append('zipf: kSkipSize not found')
+        vals['kSkipSize'] = 100
+    status['constants']['zipf'] = vals
+    # class facts (C19): operator() is const; the only static / thread_local / mutable object in the classes is the
+    # uniform_real_distribution; the constructors contain the `max < min` throw
+    h = cxxscan.strip_comments(hdr)
+    facts = {}
+    ops = re.findall(r'operator\(\)\s*\([^)]*\)\s*(const)?', h)
+    facts['operator_call_const'] = bool(ops) and all(o == 'const' for o in ops)
+    statics = re.findall(r'\b(?:thread_local|static|mutable)\b[^;\n]*', h)
+    statics = [x.strip() for x in statics if 'static_assert' not in x and 'static_cast' not in x and 'constexpr' not in x]
+    facts['static_or_mutable_objects'] = statics
+    facts['only_uniform_dist_static'] = all('uniform_real_distribution' in x for x in statics)
+    c = cxxscan.strip_comments(src)
+    facts['ctor_checks'] = len(re.findall(r'if\s*\(\s*max\s*<\s*min\s*\)\s*\{\s*throw', c))
+    status['facts']['zipf'] = facts
+    body = HEADER + 'namespace CppUtil.Gen\n\n'
+    body += f'def zipfExactBinNum : Nat := {vals["kExactBinNum"]}\n'
+    body += f'def zipfSkipSize : Nat := {vals["kSkipSize"]}\n'
+    body += f'/-- `operator()` of both generator classes is `const` -/\ndef zipfCallConst : Bool := {"true" if facts["operator_call_const"] else "false"}\n'
+    body += ('/-- the only static / thread_local / mutable object declared in the classes is the uniform distribution -/\n'
+             f'def zipfOnlyDistStatic : Bool := {"true" if facts["only_uniform_dist_static"] else "false"}\n')
+    body += f'/-- number of constructors that reject `max < min` by throwing -/\ndef zipfCtorChecks : Nat := {facts["ctor_checks"]}\n\nend CppUtil.Gen\n'
+    return write_if_changed(os.path.join(GEN_DIR, 'Zipf.lean'), body)
+
+
+GENERATORS = [gen_pess, gen_opt, gen_mcs, gen_thread, gen_zipf]
 
 
 def main():
